@@ -173,6 +173,27 @@ PROPS = {
         "exhaustive_part": {"quick": "all form combinations x 30 value draws; every year 0000-9999 in CCYY-MM-DD", "thorough": "all form combinations x 500 draws; every year 0000-9999 in 6 forms; years -20000..20000 with 2 extra digits"},
         "assumptions": TRUST,
     },
+    "C08": {
+        "technique": "TLC trace validation of str/parse/str and custom-dump round trips against Val.tla value sameness and the timeline",
+        "level_text": "For valid points of every representation, precision form (decimals of <= 6 digits), 24:00, offset class and year range TLC "
+                      "requires parse(str(p)) to carry the same representation, fields, fraction and offset as p, to compare equal, and "
+                      "str to be a fixpoint; custom complete dump formats (other representation, basic/extended, literal zones) must parse back "
+                      "to the same instant. No default text is pinned (DESIGN section 3).",
+        "drivers": ["c08"], "mc": [], "expect_ops": ["StrTrip", "DumpTrip"],
+        "rule": "one case = one time point with its default round trip and up to 3 custom formats; boundary-biased (non-trivial)",
+        "assumptions": TRUST,
+    },
+    "C09": {
+        "technique": "TLA+ acceptance tables (Val.tla ValidCal/ValidOrd/ValidWeek/ValidZone) model-checked against the calendar definition; TLC trace validation of constructor / text acceptance over the whole table and of fuzzed parser outcomes under a watchdog",
+        "level_text": "TLC checks the spec's validity tables equal 'some day of the calendar converts to these fields' for every year type and mode; "
+                      "the whole table (month -1..14 x day -1..33, day-of-year, week x weekday, hour x minute x second, zone parts) is pushed through "
+                      "the real constructor and, where representable, through the text notations, and TLC requires accept <=> valid with a "
+                      "ValueError-derived refusal; mutated/spliced/non-ASCII texts for the three parsers must give a valid object or a ValueError subclass within the watchdog.",
+        "drivers": ["c09"], "mc": [{"module": "MC_C09.tla", "cfg": "MC_C09.cfg"}], "expect_ops": ["Ctor", "ParseTP", "Fuzz"],
+        "rule": "one case = one field tuple / one text; non-trivial = everything except fuzz texts that were refused",
+        "exhaustive_part": {"quick": "the full constructor table for 12 (mode, year type) pairs", "thorough": "the full table for 40 (mode, year) pairs"},
+        "assumptions": TRUST,
+    },
     "C03": {
         "technique": "TLA+ calendar definition (Cal.tla) model-checked with TLC (+ Apalache lemmas) and TLC trace validation of every conversion row of the real helpers",
         "level_text": "Cal.tla is the proleptic definition; TLC checks it is self-consistent (inverse pairs, week rule, lengths) on every day "
